@@ -141,6 +141,13 @@ func init() {
 				cse.TimeoutMS = 120000
 				cs = append(cs, cse)
 			}
+			// an iteration that is executing across the periodic metrics refresh (every 5 s, push gateway configured)
+			// does not keep the other workers from executing
+			for i := 0; i < 1; i++ {
+				cse := core.MkCase("C04", "refresh", i, seed, map[string]int{"c": pick(r, 3, 6), "users": i % 2})
+				cse.TimeoutMS = 90000
+				cs = append(cs, cse)
+			}
 			// a tick that is busy reporting a huge discarded backlog must not keep idle workers from its own requests
 			nbr := 1
 			if tier == "thorough" {
@@ -165,7 +172,7 @@ func init() {
 			}
 			return cs
 		},
-		Kinds:  map[string]core.RunFunc{"run": c04Run, "rounds": c04Rounds, "hotrounds": c04HotRounds, "busyreport": c04BusyReport},
+		Kinds:  map[string]core.RunFunc{"run": c04Run, "rounds": c04Rounds, "hotrounds": c04HotRounds, "busyreport": c04BusyReport, "refresh": c04Refresh},
 		Floors: map[string]int64{"rendezvous_opened": 12, "highwater_reached_c": 8, "rounds_all_workers_busy": 1500},
 	})
 }
@@ -393,6 +400,60 @@ func c04BusyReport(c *core.Case, o *core.Outcome) {
 		o.Sig("busyreport:c=%d", cc)
 	}
 	o.Sample = map[string]any{"case": desc, "arrived_while_reporting": got, "report_still_running": reporting}
+}
+
+// c04Refresh: users mode with a push gateway (iteration metrics on). One iteration starts 4.6 s into the run and
+// lasts until 6.2 s, across the refresh at 5 s; meanwhile the other workers go on executing short iterations.
+func c04Refresh(c *core.Case, o *core.Outcome) {
+	var pp map[string]int
+	c.Params(&pp)
+	cc := pp["c"]
+	gw := engine.NewGateway(200)
+	defer gw.Close()
+	l := engine.NewLog()
+	k := engine.NewTracker()
+	var holderTaken atomic.Bool
+	var inWindow atomic.Int64
+	t0 := time.Now()
+	scenario := func(t *f1testing.T) f1testing.RunFn {
+		return func(t *f1testing.T) {
+			defer k.Enter(t)()
+			el := time.Since(t0)
+			if el > 4600*time.Millisecond && el < 5*time.Second && holderTaken.CompareAndSwap(false, true) {
+				time.Sleep(6200*time.Millisecond - el)
+				return
+			}
+			if el > 5300*time.Millisecond && el < 6*time.Second {
+				inWindow.Add(1)
+			}
+			time.Sleep(time.Millisecond)
+		}
+	}
+	spec := engine.Spec{Mode: "users", Concurrency: cc, MaxDurationMS: 6500, IgnoreDropped: true, PushGateway: gw.URL()}
+	t0 = time.Now()
+	r := engine.Execute(context.Background(), spec, l, scenario, nil, nil)
+	if r.NewErr != nil {
+		o.Inconc("harness: %v", r.NewErr)
+		return
+	}
+	o.Events = k.Started.Load()
+	desc := fmt.Sprintf("users c=%d, push gateway, one iteration executing from 4.6 s to 6.2 s", cc)
+	npush, _, _ := gw.Pushes()
+	if !holderTaken.Load() || npush < 2 {
+		o.Inconc("the long iteration did not start in its window or no refresh reached the gateway (%d pushes) (%s)", npush, desc)
+		return
+	}
+	if hw := k.HighWater.Load(); hw > int64(cc) {
+		o.Violate("refresh-upper:"+desc, "%d iterations in flight with concurrency %d (%s)", hw, cc, desc)
+		return
+	}
+	if inWindow.Load() == 0 {
+		o.Violate("refresh-lower:"+desc, "while one iteration was executing across the 5 s metrics refresh, the other %d workers started no iteration at all between 5.3 s and 6.0 s (%d iterations in the whole run): they were not usable (%s)", cc-1, k.Started.Load(), desc)
+		return
+	}
+	o.AddObs("rounds_all_workers_busy", 1)
+	o.Sig("refresh:c=%d", cc)
+	o.Sample = map[string]any{"case": desc, "iterations_started_between_5.3s_and_6s": inWindow.Load(), "pushes": npush}
 }
 
 func tickClass(t, c int) string {
